@@ -13,6 +13,7 @@ import (
 	"net"
 	"net/netip"
 	"os"
+	"regexp"
 	"sort"
 	"strings"
 	"time"
@@ -51,13 +52,14 @@ type body struct {
 }
 
 type world struct {
-	rm       *lib.RegistrationManager
-	anns     []lib.VerifDetectorMsg
-	annCov   []string
-	lookups  []string
-	bad      string // invariant violation noticed by a thread
-	bodies   []body
-	finalize func() string
+	rm        *lib.RegistrationManager
+	anns      []lib.VerifDetectorMsg
+	annCov    []string
+	lookups   []string
+	bad       string // invariant violation noticed by a thread
+	lifetimes bool   // the scenario lets time pass: "new exactly once" is judged per lifetime
+	bodies    []body
+	finalize  func() string
 }
 
 func conf() *lib.RegConfig {
@@ -152,16 +154,37 @@ func (w *world) digest() string {
 	sort.Strings(a)
 	l := append([]string{}, w.lookups...)
 	sort.Strings(l)
-	return strings.Join(a, ",") + " | " + w.rm.VerifDumpFull() + " | " + strings.Join(l, ",")
+	dump := w.rm.VerifDumpFull()
+	if w.lifetimes {
+		// an ingest that straddles the sweep of its own (never validated) record has counted its delivery in the
+		// swept lifetime (it shows in that lifetime's expiry statistics, nothing is lost); the statement does not say
+		// which lifetime a straddling delivery belongs to, so the duplicate counter is not compared here
+		dump = dupCount.ReplaceAllString(dump, " n=*")
+	}
+	return strings.Join(a, ",") + " | " + dump + " | " + strings.Join(l, ",")
 }
+
+var dupCount = regexp.MustCompile(` n=\d+`)
 
 func (w *world) invariants() string {
 	if w.bad != "" {
 		return w.bad
 	}
 	news := map[string]int{}
+	lives := map[any]int{}
 	for _, an := range w.anns {
 		if an.Op == "New" {
+			if w.lifetimes {
+				// scenarios in which a registration can live twice: once per lifetime (per timeout record)
+				if an.Life == nil {
+					return fmt.Sprintf("registration %s announced as new while nothing tracks it", an.Reg.IDString())
+				}
+				lives[an.Life]++
+				if lives[an.Life] > 1 {
+					return fmt.Sprintf("registration %s announced as new %d times within one lifetime", an.Reg.IDString(), lives[an.Life])
+				}
+				continue
+			}
 			news[an.Reg.IDString()+an.Reg.PhantomIp.String()]++
 		}
 	}
@@ -212,6 +235,18 @@ func scenarios() map[string]scenario {
 			return w
 		}})
 	}
+	// S3c: the unused lifetime passes and the sweeper runs while two workers ingest the same registration (each may be
+	// parked in its liveness probe at that moment): whatever is tracked afterwards is announced once per lifetime
+	add(scenario{"S3c:two-workers+lifetime-passes+sweeper", func() *world {
+		w := newWorld()
+		w.lifetimes = true
+		b := msg(1, "93.184.216.34:443")
+		w.bodies = []body{w.worker("workerA", b), w.worker("workerB", b), {name: "clock+sweeper", f: func() {
+			vsched.Advance(10*time.Minute + time.Second)
+			w.rm.RemoveOldRegistrations()
+		}}}
+		return w
+	}})
 	// S3b: three expired registrations on the sweeper's list while a connection activates one of them between the
 	// sweeper's collection and removal passes: every other expired, unused registration must still be removed. The
 	// sweep list follows the iteration order of the timeout map, which the C09 build makes sorted-by-key (vinstr
